@@ -148,7 +148,11 @@ def run(repo, rep, tier):
                      f"the circular padding must be at least half the DIRECTION window wide; it is derived from {sorted(names) or unparse(src)}: "
                      f"for {dw} // 2 larger than that, bins next to the seam are not averaged across it")
     # circularity test
-    circ = [n for n in ast.walk(fi.node) if isinstance(n, ast.Assign) and isinstance(n.targets[0], ast.Name) and n.targets[0].id == "is_circular"
+    pad_nodes = [pads[k][0] for k in pads]
+    guards_ = [n for n in ast.walk(fi.node) if isinstance(n, ast.If) and isinstance(n.test, ast.Name) and pad_nodes
+               and all(any(pn is x for x in ast.walk(n)) for pn in pad_nodes)]
+    cname = guards_[0].test.id if guards_ else None
+    circ = [n for n in ast.walk(fi.node) if isinstance(n, ast.Assign) and isinstance(n.targets[0], ast.Name) and n.targets[0].id == cname
             and isinstance(n.value, ast.Compare)]
     if not circ:
         raise AnalysisError("smooth_spec: is_circular test not found")
@@ -160,7 +164,7 @@ def run(repo, rep, tier):
         rep.fail("R-C16-2", fi.file, circ[0].lineno, fi.qualname, unparse(circ[0])[:120],
                  "the full-circle test must bound the ABSOLUTE deviation of max - min + dd from 360: without abs() every partial "
                  "direction sector counts as circular and its two ends are averaged into each other")
-    guard = [n for n in ast.walk(fi.node) if isinstance(n, ast.If) and unparse(n.test) == "is_circular"]
+    guard = guards_
     if guard and all(pads[k][0] in list(ast.walk(guard[0])) for k in pads):
         rep.ok("R-C16-2", f"{fi.file}:{guard[0].lineno} smooth_spec", "if is_circular: pad", "padding only for full-circle grids")
     else:
@@ -195,11 +199,15 @@ def run(repo, rep, tier):
     if not (isinstance(nxt, ast.Attribute) and nxt.attr == "mean"):
         rep.fail("R-C16-3", fi.file, r.lineno, fi.qualname, unparse(nxt)[:80] if nxt is not None else "rolling", "the window statistic must be the mean")
     t = unparse(fi.node).replace(" ", "")
-    if "xr.where(dsout.notnull(),dsout,dset)" in t:
+    P0 = fi.params[0]
+    wh = [c_ for c_ in ast.walk(fi.node) if isinstance(c_, ast.Call) and call_name(c_).split(".")[-1] == "where" and len(c_.args) == 3
+          and isinstance(c_.args[0], ast.Call) and isinstance(c_.args[0].func, ast.Attribute) and c_.args[0].func.attr == "notnull"
+          and unparse(c_.args[0].func.value) == unparse(c_.args[1]) and unparse(c_.args[2]) == P0 and unparse(c_.args[1]) != P0]
+    if wh:
         rep.ok("R-C16-3", f"{fi.file} smooth_spec", "xr.where(dsout.notnull(), dsout, dset)", "edges where the window does not fit keep the input")
     else:
         rep.fail("R-C16-3", fi.file, fi.node.lineno, fi.qualname, "edge fill", "NaN edges of the rolling mean must be filled from the input spectrum")
-    if "assign_coords(dset.coords)" in t:
+    if f"assign_coords({P0}.coords)" in t:
         rep.ok("R-C16-3", f"{fi.file} smooth_spec", "assign_coords(dset.coords)", "input coordinates (and their order) restored")
     else:
         rep.fail("R-C16-3", fi.file, fi.node.lineno, fi.qualname, "coordinate restore", "the output must carry exactly the input's coordinates")
